@@ -1,6 +1,7 @@
 import GV.Basic.Hex
 import GV.Model.Types
 import GV.Spec.GoTypes
+import GV.Proofs.MethodSet
 
 /-! Driver for topic `types` (C09): `fam <script>` runs the model, `sfam <script>` the specification,
     `dfam <script>` answers the diagnosis flags of every probe. Script grammar: see harness/js/topics/types.js. -/
@@ -153,7 +154,7 @@ def step (mode : Mode) (d : DS) (k : Nat) (a : List String) : Option (DS × Stri
     match mode with
     | .model => some ({ d with st := methodSetSt d.st id }, showMethods d (methodSet d.st id))
     | .spec => some (d, showMethods d (specMethodSet d.st ptrOf id))
-    | .diag => some (d, showDiag (diag d.st ptrOf id))
+    | .diag => some (d, showDiag (diag d.st ptrOf id) ++ (if GV.Props.C09.theoremCovers d.st id then "+thm" else ""))
   | [op, v, t] =>
     if op == "a" ∨ op == "x" then do
       let dyn ← if v == "n" then some none else (d.ref v).map some
@@ -173,7 +174,7 @@ def step (mode : Mode) (d : DS) (k : Nat) (a : List String) : Option (DS × Stri
       | .diag =>
         match dyn with
         | some v =>
-          some (d, showDiag (diag d.st ptrOf v))
+          some (d, showDiag (diag d.st ptrOf v) ++ (if GV.Props.C09.theoremCovers d.st v then "+thm" else ""))
         | none => some (d, "clean")
     else if op == "E" then do
       let x ← parsePayload.parseVal d v.toList
